@@ -268,6 +268,9 @@ struct TilesetStream : Family {
 			coarsenFaultsForBigWorld(p);
 		}
 		t.set("seed", hex64(r.next())).set("tiles", tiles).set("bottomup", r.below(2)).set("rowpool", r.chance(1, 3) ? 1 + r.below(3) : 0);
+		// one world in eight: another tileset, whose palette differs in two entries only but has the same 32-bit FNV-1a digest, is saved
+		// and loaded right before this one (a conversion remembered under a digest must not be handed to a different palette)
+		if (r.chance(1, 8)) t.set("paltwin", r.below(8)).set("paltwinlane", r.below(2));
 		p.world.push_back(t);
 		size_t nops = static_cast<size_t>(r.range(3, 12));
 		static const char* SIG[] = {"PBMP", "BM", "PBMp", "pBMP", "PBM", "PBMPX", "head", "rnd"};
@@ -322,6 +325,21 @@ struct TilesetStream : Family {
 		};
 		std::string what;
 		bool any = false;
+		// the digest twin of this world's palette (if the plan has one): saved and loaded as a tileset of its own, results not judged
+		bool hasTwin = false; uint64_t twinK = 0; int twinLane = 0;
+		for (auto& l : plan.world) if (l.verb == "tileset" && l.has("paltwin")) { hasTwin = true; twinK = l.u("paltwin"); twinLane = static_cast<int>(l.u("paltwinlane", 0)); }
+		auto predecessor = [&] {
+			if (!hasTwin) return;
+			ref::RTileset keep = t;
+			paletteTwinHead(twinK, 0, twinLane, t.palette[0], t.palette[1]);
+			callLib(plan, [&] {
+				BitmapFile pb = makeBitmap(bottomUp);
+				Stream::DynamicMemoryWriter w; Tileset::WriteCustomTileset(w, pb);
+				auto rd = w.GetReader(); (void)Tileset::ReadTileset(rd);
+			}, &what);
+			t = keep;
+			ctx.count("probe.digest_twin_palette_converted_just_before");
+		};
 		for (size_t oi = 0; oi < plan.ops.size(); ++oi) {
 			const Line& op = plan.ops[oi];
 			ctx.setOp(oi);
@@ -331,6 +349,7 @@ struct TilesetStream : Family {
 				BitmapFile src;
 				Out o = callLib(plan, [&] { src = makeBitmap(bottomUp); }, &what);
 				if (o != OkOut) ctx.fail("C09.custom-roundtrip", "building the tileset picture failed: " + what);
+				predecessor();
 				std::vector<uint8_t> bytes = writeVia(plan, ctx, wb, "t" + std::to_string(oi), v == "custom" ? "C09.custom-roundtrip" : "C09.bmp-equals-custom",
 				                                      [&](Stream::Writer& w) { if (v == "custom") Tileset::WriteCustomTileset(w, src); else src.WriteIndexed(w); });
 				if (v == "custom") {
@@ -349,6 +368,7 @@ struct TilesetStream : Family {
 				}
 				BitmapFile back;
 				uint64_t posAfter = 0;
+				predecessor();
 				// the load goes through the format-detecting loader, its rvalue-reference overload, or (custom bytes) the direct loader
 				uint64_t route = mix64(plan.seed, oi * 7 + 1) % 4;
 				o = callLib(plan, [&] {
